@@ -33,7 +33,7 @@ PROPERTIES = {
         'does_not_decide': 'the estimates themselves (C14 numerics), the deque order (C12)',
     },
     'C12': {
-        'rules': [adm.rule_must_recency, fx.rule_pair_readop_once, adm.rule_cmp_admit, adm.rule_cmp_evict, adm.rule_flow_admit_sums, flow.rule_flow_sync],
+        'rules': [adm.rule_must_recency, fx.rule_pair_readop_once, adm.rule_cmp_admit, adm.rule_cmp_evict, adm.rule_flow_admit_sums, flow.rule_flow_sync, live.rule_lookup_surface],
         'explanation': 'Recency bookkeeping is invoked on every use (get hit, update, admission push-back); victim selection starts at the '
                        'front of probation and advances by next only; the scan and the eviction loops stop as early as allowed '
                        '(victims.weight < candidate.weight, evicted >= weights_to_evict) and remove what peek_front returned.',
@@ -41,7 +41,7 @@ PROPERTIES = {
         'does_not_decide': 'that Deque really implements the order (its pointer algebra); order among skipped / stale nodes in sync',
     },
     'C04': {
-        'rules': [adm.rule_admission_outcomes, adm.rule_flow_admit_sums, adm.rule_cmp_evict, cfg.rule_store_capacity, cfg.rule_weigh_exact, conc.rule_const_logsizes, conc.rule_loop_retry, flow.rule_flow_unsync, flow.rule_flow_sync, stale.rule_must_drain, stale.rule_explicit_sync],
+        'rules': [adm.rule_admission_outcomes, adm.rule_flow_admit_sums, adm.rule_cmp_evict, cfg.rule_store_capacity, cfg.rule_weigh_exact, conc.rule_const_logsizes, conc.rule_loop_retry, flow.rule_flow_unsync, flow.rule_flow_sync, stale.rule_must_drain, stale.rule_explicit_sync, must.rule_must_expire],
         'explanation': 'Structural half of the bound: a candidate that does not fit is admitted only with its victims removed or is itself '
                        'removed; oversize candidates are undone; over-capacity is evicted at every unsync operation and every maintenance '
                        'run with the exact exit test; counters are adjusted on every path (FLOW); the queue of un-applied writes is bounded '
@@ -69,7 +69,7 @@ PROPERTIES = {
         'does_not_decide': 'live-object counts at quiescent points, release timing relative to the clock',
     },
     'C10': {
-        'rules': [flow.rule_flow_unsync, flow.rule_flow_admit_sums_unsync, adm.rule_flow_admit_sums, flow.rule_flow_sync, stale.rule_admit_live, stale.rule_stale_removal, cfg.rule_store_weigher, cfg.rule_weigh_exact, must.rule_scan_stops_with_cause],
+        'rules': [flow.rule_flow_unsync, flow.rule_flow_admit_sums_unsync, adm.rule_flow_admit_sums, flow.rule_flow_sync, stale.rule_admit_live, stale.rule_stale_removal, cfg.rule_store_weigher, cfg.rule_weigh_exact, must.rule_scan_stops_with_cause, must.rule_must_expire],
         'explanation': 'Per-path traces of every function that adds / removes / replaces a map entry: the final value written to each '
                        'counter is decomposed into a signed sum and must contain the removed entry\'s stored weight with sign - (and 1 with -), '
                        'the admitted candidate\'s weight with + (and 1), -old +new for updates, 0 after clear; accumulators are checked '
@@ -79,7 +79,7 @@ PROPERTIES = {
         'does_not_decide': 'the numeric equality itself (saturation, weigher determinism), quiescent multi-thread states',
     },
     'C01': {
-        'rules': [live.rule_guard_live_all, must.rule_must_invalidate, must.rule_must_insert, must.rule_auth_value, must.rule_impl_accessors, stale.rule_auth_ts_writers, must.rule_update_resets],
+        'rules': [live.rule_guard_live_all, must.rule_must_invalidate, must.rule_must_insert, must.rule_auth_value, must.rule_impl_accessors, stale.rule_auth_ts_writers, must.rule_update_resets, live.rule_lookup_surface],
         'explanation': 'Path-sensitive abstract interpretation of the 6 lookups (get / contains_key / Iter::next of both caches): on '
                        'every path that returns a hit, the entry that is returned was checked against ttl, tti and (sync) the '
                        'invalidate_all watermark with the exact comparison operators and operand roles.',
@@ -87,28 +87,28 @@ PROPERTIES = {
         'does_not_decide': 'HashMap/DashMap lookup correctness; that the latest insert wins under concurrency (C02)',
     },
     'C05': {
-        'rules': [live.rule_guard_live_ttl, cfg.rule_store_ttl, must.rule_update_resets_ttl, must.rule_wo_node, cfg.rule_flow_config_names, cfg.rule_build_validate, stale.rule_auth_ts_writers, must.rule_impl_accessors],
+        'rules': [live.rule_guard_live_ttl, cfg.rule_store_ttl, must.rule_update_resets_ttl, must.rule_wo_node, cfg.rule_flow_config_names, cfg.rule_build_validate, stale.rule_auth_ts_writers, must.rule_impl_accessors, live.rule_lookup_surface],
         'explanation': 'Every hit path of the 6 lookups establishes last_modified + time_to_live <= now == false (inclusive boundary) '
                        'on the returned entry with `now` read from the clock in the same call.',
         'decides': 'the inclusive ttl boundary test is applied by every lookup to the returned entry',
         'does_not_decide': 'clock monotonicity; DashMap guard atomicity between an update and a concurrent read',
     },
     'C06': {
-        'rules': [live.rule_guard_live_tti, cfg.rule_store_tti, fx.rule_pure_observers_ts, must.rule_update_resets_tti, cfg.rule_flow_config_names, stale.rule_auth_ts_writers, adm.rule_must_recency, must.rule_impl_accessors],
+        'rules': [live.rule_guard_live_tti, cfg.rule_store_tti, fx.rule_pure_observers_ts, must.rule_update_resets_tti, cfg.rule_flow_config_names, stale.rule_auth_ts_writers, adm.rule_must_recency, must.rule_impl_accessors, live.rule_lookup_surface],
         'explanation': 'Every hit path of the 6 lookups establishes last_accessed + time_to_idle <= now == false (inclusive) on the '
                        'returned entry; contains_key / iteration have no write effect on any timestamp store.',
         'decides': 'the inclusive tti boundary test is applied by every lookup; observers cannot extend the idle deadline',
         'does_not_decide': 'clock monotonicity; concurrent visibility',
     },
     'C07': {
-        'rules': [live.rule_guard_live_va, must.rule_must_invalidate, must.rule_auth_value, stale.rule_stale_ts, must.rule_unlink_both, flow.rule_flow_unsync, stale.rule_auth_ts_writers, must.rule_update_resets],
+        'rules': [live.rule_guard_live_va, must.rule_must_invalidate, must.rule_auth_value, stale.rule_stale_ts, must.rule_unlink_both, flow.rule_flow_unsync, stale.rule_auth_ts_writers, must.rule_update_resets, live.rule_lookup_surface],
         'explanation': 'Every hit path of the 3 sync lookups establishes ts < valid_after == false (strict) for both timestamp stores of '
                        'the returned entry.',
         'decides': 'the watermark comparison is strict and applied by every sync lookup',
         'does_not_decide': 'per-schedule visibility between an invalidating thread and readers',
     },
     'C16': {
-        'rules': [live.rule_guard_live_all, must.rule_update_resets, live.rule_miss_reasons, stale.rule_stale_removal, flow.rule_flow_sync, must.rule_must_insert, ty.rule_type_iter],
+        'rules': [live.rule_guard_live_all, must.rule_update_resets, live.rule_miss_reasons, stale.rule_stale_removal, flow.rule_flow_sync, must.rule_must_insert, ty.rule_type_iter, live.rule_lookup_surface],
         'explanation': 'Both Iter::next implementations yield an item only on paths where the full liveness predicate of that very '
                        'item is false.',
         'decides': 'iteration never yields an expired / invalidated entry; the filter is exactly the liveness predicate',
@@ -123,7 +123,7 @@ PROPERTIES = {
         'does_not_decide': 'map correctness; quiescent behaviour after real multi-thread runs',
     },
     'C15': {
-        'rules': [fx.rule_pure_observers],
+        'rules': [fx.rule_pure_observers, live.rule_lookup_surface],
         'explanation': 'May-effect analysis over the whole call graph from every observer entry point (contains_key, iter, '
                        'Iter::next, EntryRef accessors, policy / counter getters, Debug) of both caches: none of them can reach a '
                        'sketch write, a timestamp / flag / watermark write, a recency update (move-to-back / push role), a queue send, '
@@ -135,7 +135,7 @@ PROPERTIES = {
         'does_not_decide': 'effects of user callbacks (Hash/Eq/Clone/Debug); HashMap/DashMap internals',
     },
     'C14': {
-        'rules': [fx.rule_auth_sketch_record, fx.rule_pair_readop_once, fx.rule_const_masks, fx.rule_sketch_structure, adm.rule_must_recency],
+        'rules': [fx.rule_auth_sketch_record, fx.rule_pair_readop_once, fx.rule_const_masks, fx.rule_sketch_structure, adm.rule_must_recency, live.rule_lookup_surface],
         'explanation': 'Decides the clause "only get calls are recorded, each exactly once" plus structural necessary conditions of the '
                        'numeric clauses: who can reach the sketch increment role, where ReadOps are constructed and consumed, one record per '
                        'path through get, RESET/ONE/nibble masks and the 128 clamp, aging visits the whole table and halves every slot, '
